@@ -447,6 +447,20 @@ pub fn mk_zone(rng: &mut Rng, o: &ZoneOpts) -> Option<Built> {
             let ti = transitions.last().map(|x| x.1).unwrap_or(0);
             rule = Some(TransitionRule::Fixed(types[ti]));
         }
+        let mut transitions = transitions;
+        if let Some(a) = &alt {
+            // like slim TZif files: the last table transition is one of the rule's own instants
+            if leaps.is_empty() && rng.chance(1, 2) {
+                let y = match transitions.last() {
+                    Some(x) => (1970 + x.0.div_euclid(31_556_952)).clamp(1800, 2400) + rng.range(1, 3),
+                    None => rng.range(1950, 2050),
+                };
+                let (s_i, e_i) = rule_instants(a, y);
+                let (t_j, idx) = if rng.chance(1, 2) { (s_i, 1usize) } else { (e_i, 0usize) };
+                transitions.retain(|x| x.0 < t_j);
+                transitions.push((t_j, idx));
+            }
+        }
         let mut raw = RawZone { transitions, types, leaps, rule };
         // with an alternate rule the last transition must carry the rule's type at that instant: try both
         if alt.is_some() && !raw.transitions.is_empty() {
@@ -680,6 +694,30 @@ pub fn zonenew(out: &mut impl Write, rng: &mut Rng, thorough: bool) {
         // (5) rule differing from the last type in exactly one of offset / flag / designation
         if let Some((_, ti)) = raw.transitions.last() {
             let last = raw.types[*ti];
+            // designation differing in exactly one position (first, middle, last) or by one character in length
+            if let Some(n) = name_of(&last) {
+                let mut alts: Vec<Vec<u8>> = Vec::new();
+                for pos in [0usize, n.len() / 2, n.len() - 1] {
+                    let mut m = n.clone();
+                    m[pos] = if m[pos] == b'Q' { b'R' } else { b'Q' };
+                    alts.push(m);
+                }
+                if n.len() < 7 {
+                    let mut m = n.clone();
+                    m.push(b'X');
+                    alts.push(m);
+                }
+                if n.len() > 3 {
+                    let mut m = n.clone();
+                    m.pop();
+                    alts.push(m);
+                }
+                for m in alts {
+                    let mut r = raw.clone();
+                    r.rule = Some(TransitionRule::Fixed(LocalTimeType::new(last.ut_offset(), last.is_dst(), Some(&m)).unwrap()));
+                    zonenew_line(out, &r);
+                }
+            }
             let variants = [
                 LocalTimeType::new(last.ut_offset().wrapping_add(1).max(i32::MIN + 1), last.is_dst(), name_of(&last).as_deref()).unwrap(),
                 LocalTimeType::new(last.ut_offset(), !last.is_dst(), name_of(&last).as_deref()).unwrap(),
